@@ -28,7 +28,7 @@ RULE = (
     "run at most once per core; every later evaluation of a core must return the cached rows.  Non-trivial = the core "
     "was evaluated and then re-used >= 2 times; distinct = multiset of step kinds x core kind."
     "  Some cores are calc -> transfer -> 0-2 user-defined markers -> materialization or end in a chain with a "
-    "doomed branch; payload objects with value equality are attached; the rows cached on each core are "
+    "doomed branch; payload objects with value equality and lazy (batched, re-iterable) row iterables are attached; the rows cached on each core are "
     "snapshotted when first seen and re-compared (same rows, same order) after every step. "
 )
 ASSUMPTIONS = [
@@ -212,7 +212,17 @@ def run_case(case):
                     if isinstance(node.engine, sql.Engine):
                         new_payload = db.make_table("attached", [T(x) for x in cr["spec"]["cols"]], rows)
                     else:
-                        new_payload = eq_rows_class()(rows) if rng.random() < 0.5 else iteration.RowSequence(rows)
+                        r_kind = rng.random()
+                        if r_kind < 0.35:
+                            new_payload = eq_rows_class()(rows)
+                        elif r_kind < 0.65:
+                            # a lazy (not materialized) but re-iterable RowIterable, e.g. rows that
+                            # arrive in batches: any payload object is the caller's to choose
+                            k = rng.randint(0, len(rows))
+                            new_payload = iteration.ChainRowIterable([iteration.RowSequence(rows[:k]), iteration.RowSequence(rows[k:])])
+                            c["lazy_payloads_attached"] = c.get("lazy_payloads_attached", 0) + 1
+                        else:
+                            new_payload = iteration.RowSequence(rows)
                     try:
                         node.attach_payload(new_payload)
                         if had:
